@@ -1,6 +1,6 @@
 HOOK_COMMITS = []
 ENGINES = [
-    {"name": "mc-core::enumerate", "path": "harness/mc-core/src/enumerate.rs", "serves_properties": ["C16", "C17"],
+    {"name": "mc-core::enumerate", "path": "harness/mc-core/src/enumerate.rs", "serves_properties": ["C12", "C13", "C16", "C17"],
      "kind_free_text": "exhaustive bounded input enumeration (odometers, products, subsets, byte mutations) against independent references"},
     {"name": "mc-core::bfs", "path": "harness/mc-core/src/bfs.rs", "serves_properties": [],
      "kind_free_text": "explicit-state BFS over operation histories; the transition function is the real method (clone mode / replay mode)"},
@@ -16,6 +16,14 @@ CHECKS = [
      "technique": "exhaustive bounded input enumeration under catch_unwind with overflow checks on",
      "text": "Each listed parser is called on a completely enumerated boundary family (all lengths, all truncations and single-token/byte mutations of valid inputs, all short strings over marker alphabets, all 65536 ports); a panic or arithmetic overflow in the real code is a violation, and parse(format(x))==x is checked where a formatter exists. Complete within the families, silent outside them.",
      "note": "Trusted: catch_unwind + overflow-checks=on surface every crash; inputs outside the enumerated families (long random text, deep JSON nesting) are not covered."},
+    {"id": "C12", "engine": "mc-core::enumerate", "level": "exploration",
+     "technique": "exhaustive bounded input enumeration: value pools x codecs, pinned tag table, golden bytes, hostile-byte sweep of every decoder",
+     "text": "Every value of per-kind pools and every request/response variant is encoded with the codecs the code uses (rmp for records, the libp2p cbor codec for messages), decoded and compared; prefixes are compared with a tag table pinned in the harness and whole encodings with committed golden bytes; all byte strings <=2, all marker-byte sequences <=3/4 and every truncation / single-byte substitution of the encodings go to all 11 decoders (and the decoded messages are Debug-formatted as the driver does when logging). Complete within pools and bounds.",
+     "note": "Trusted: pinned table TAGS in chk-pure/src/c12.rs and golden/C12.json (generated once from the pinned tree); value pools are finite."},
+    {"id": "C13", "engine": "mc-core::enumerate", "level": "exploration",
+     "technique": "exhaustive enumeration of field-mutation subsets x signature provenance x claimed identity against a construction-aware oracle",
+     "text": "All subsets of 10 field mutations (<=3 fields quick, all 1024 thorough) x 4 key variants x 7 signature provenances x 2 claimed identities are verified with the real PaymentQuote code; all proof compositions of <=3/4 entries over 5 entry kinds for 3 nodes; expiry at 10 ages; a 3^4 grid for the history rule. The oracle knows how each case was built, so it is independent of the verification code.",
+     "note": "Trusted: libp2p ed25519 signing used to build cases; sub-second timestamp changes are not judged (signature covers whole seconds); the 3600 s edge is bracketed at +-10 s."},
 ]
 _pending = "check not built yet in this session (planned in DESIGN.md §4); not claimed until it runs"
 NOT_BUILT = [(f"C{i:02d}", _pending) for i in range(1, 21) if f"C{i:02d}" not in {c["id"] for c in CHECKS}]
